@@ -131,6 +131,18 @@ def check_row(ctx, row, seed):
             break
         want = poly_eval(row["poly"], p)
         if first:
+            # the matrix a caller received is the caller's: overwriting its entries must not change the gate
+            try:
+                raw = g.matrix
+                if hasattr(raw, "__setitem__"):
+                    raw[0, 0] = 7
+                    raw[raw.shape[0] - 1, raw.shape[1] - 1] = 7
+                again = np_matrix(gate_of(name, list(p)).matrix)
+                if not close(again, m) or not close(np_matrix(g.matrix), m):
+                    out.append(("matrix-shared:" + name, "%s%s: after a caller overwrote entries of the matrix it had received, the gate's matrix is %s" % (name, p if p else "", np.round(again, 6).tolist())))
+            except TypeError:
+                pass  # immutable matrices cannot be overwritten: nothing to check
+        if first:
             first = False
             if g.num_qubits != row["nq"]:
                 out.append(("num_qubits:" + name, "%s declares %d qubits, specification %d" % (name, g.num_qubits, row["nq"])))
